@@ -19,11 +19,19 @@ fn run_repl() {
         buffer.clear();
         print!(">>> ");
         io::stdout().flush().unwrap();
-        io::stdin().read_line(&mut buffer).unwrap();
+        // stop at end of input
+        if io::stdin().read_line(&mut buffer).unwrap() == 0 {
+            println!();
+            break;
+        }
 
-        // TODO: Error handling here
-        let ast = parse(&buffer).unwrap();
-        let code = compiler.compile_ast(&ast).unwrap();
+        let code = match parse(&buffer).and_then(|ast| compiler.compile_ast(&ast)) {
+            Ok(code) => code,
+            Err(e) => {
+                eprintln!("{e:?}");
+                continue;
+            }
+        };
 
         match vm.run(code) {
             Ok(obj) => {
